@@ -1222,22 +1222,29 @@ def random_runs(seed, tier, stats=None):
                     ch = Chain(names, forcing.ForcedModel(pattern), [prop], bit_generator=rng.randrange(1, 10 ** 6))
                     ch.start_position = mid_start(spec, prop)
                 except Exception as e:      # noqa: BLE001
-                    stats.setdefault('_skipped_reasons', {}).setdefault('random run %s: %r' % (fam, e), 0)
+                    why = 'random run %s not built: %s' % (fam, repr(e)[:80])
+                    stats.setdefault('_skipped_reasons', {})[why] = stats.get('_skipped_reasons', {}).get(why, 0) + 1
                     continue
                 dummy = Script()
+                # base draws from a real seeded generator, through the stand-in so that a rejection
+                # loop that stops landing (adapted scale far beyond the box: property C14) ends the
+                # run instead of hanging it
+                feed = Script(tail=real_tail(rng.randrange(1, 10 ** 6)), budget=400 * nsteps)
                 for it in range(nsteps):
                     cur = {p: ch.current_position[p] for p in names}
                     cur = {p: (int(v) if g in ('bd', 'nd') else float(v)) for p, v in cur.items()}
                     try:
-                        if g == 'sa':
-                            with sa_numpy_log() as npl:
+                        with scripted(feed):
+                            if g == 'sa':
+                                with sa_numpy_log() as npl:
+                                    ch.step()
+                                npl = npl[:len(SA_CALLS)]
+                            else:
+                                npl = []
                                 ch.step()
-                            npl = npl[:len(SA_CALLS)]
-                        else:
-                            npl = []
-                            ch.step()
-                    except Exception as e:      # noqa: BLE001  (e.g. 'NaN acceptance!': other properties)
-                        stats.setdefault('_skipped_reasons', {}).setdefault('random run %s stopped: %r' % (fam, e), 0)
+                    except Exception as e:      # noqa: BLE001  (e.g. 'NaN acceptance!', a stalled loop: other properties)
+                        why = 'random run %s stopped at step %d: %s' % (fam, it, repr(e)[:80])
+                        stats.setdefault('_skipped_reasons', {})[why] = stats.get('_skipped_reasons', {}).get(why, 0) + 1
                         break
                     nprop += 1
                     res = {'kind': 'ok', 'out': dict(ch.proposed_position), 'script': dummy, 'np': npl, 'exc': None}
